@@ -33,7 +33,7 @@ MANIFEST = {
                  'attribute kind x policy x datum under a recording '
                  'security policy; non-interference (two-run) and mediation '
                  '(policy log) oracles',
-    'text': 'A table of 111 access channels (client lookup, with / with '
+    'text': 'A table of 114 access channels (client lookup, with / with '
             'only, attribute / item / _.getattr / _[...] access in '
             'expressions, dtml-in items as objects and 2-tuples, '
             'skip_unauthorized, sequence-var-, first-/last-, the ten '
@@ -244,6 +244,15 @@ def ns_method(attr, datum, other=None):
     return None, {'o': Node(**{attr: (lambda d=datum: d)})}
 
 
+def ns_tainted(attr, datum, other=None):
+    from AccessControl.tainted import TaintedString
+    return None, {'o': TaintedString('<' + datum)}
+
+
+def ns_plain_str(attr, datum, other=None):
+    return None, {'o': '<' + datum}
+
+
 def ns_truth(attr, datum, other=None):
     return None, {'o': Node(**{attr: 'yes' if datum == D1 else ''})}
 
@@ -448,6 +457,14 @@ CHANNELS = [
     ('fmt-method', '<dtml-var o fmt=ATTR>', ns_method, ''),
     ('fmt-method-null', '<dtml-var o fmt=ATTR null="n">', ns_method, ''),
     ('fmt-method-expr', '<dtml-var "o" fmt=ATTR>', ns_method, ''),
+    # method formats of string values: the method is fetched through the
+    # guard whatever kind of string it is (the guard is asked for "format")
+    ('fmt-strmethod-tainted', '<dtml-var o fmt=format>', ns_tainted,
+     'fixed:format'),
+    ('fmt-strmethod-tainted-expr', '<dtml-var "o" fmt=format null="n">',
+     ns_tainted, 'fixed:format'),
+    ('fmt-strmethod-tainted-swapcase', '<dtml-var o fmt=swapcase size=99>',
+     ns_tainted, 'fixed:swapcase swapcase'),
     ('tree-body', '<dtml-tree root><dtml-var ATTR missing="-"></dtml-tree>',
      ns_tree, ''),
     ('tree-branches', '<dtml-tree root branches=ATTR><dtml-var label>'
@@ -581,6 +598,12 @@ def run(case):
     cid, src0, builder, flags = channel(case['channel'])
     kind = case['kind']
     attr = ATTRS[kind]
+    if 'fixed:' in flags:
+        # the guarded name is a fixed (string) method name
+        if kind == 'private':
+            res.outcome = 'fixed:n/a'
+            return res
+        attr = flags.split('fixed:')[1].split()[0]
     src = src0.replace('ATTR', attr)
     tag = '%s:%s' % (cid, kind)
     n = 0
@@ -607,6 +630,8 @@ def run(case):
         if 'order' in flags or 'num' in flags or 'truth' in flags or \
                 'pairwise' in flags:
             return None           # judged by comparing the two runs
+        if 'swapcase' in flags:
+            return datum.swapcase() in out[1]
         if 'upper' in flags:
             return datum.upper() in out[1]
         if 'lower' in flags:
